@@ -15,8 +15,9 @@ let parse_rec (f : string) : (string, int list) Hashtbl.t =
         | _ -> ())
       (split_on '|' f);
   h
-let rec_key (ws : word list) (lws : n list) : string =
-  elist (fun w -> Printf.sprintf "%s:%s:%s" (dec_of_n w.w_width) (dec_of_n (blen w.w_ws)) (dec_of_n (blen w.w_pen))) ws
+let rec_key (p : penalties) (ws : word list) (lws : n list) : string =
+  Printf.sprintf "%s:%s:%s:%s:%s#" (dec_of_n p.p_nline) (dec_of_n p.p_overflow) (dec_of_n p.p_frac) (dec_of_n p.p_short) (dec_of_n p.p_hyphen)
+  ^ elist (fun w -> Printf.sprintf "%s:%s:%s" (dec_of_n w.w_width) (dec_of_n (blen w.w_ws)) (dec_of_n (blen w.w_pen))) ws
   ^ "@" ^ enums lws
 let rec take_groups (ws : 'a list) (lens : int list) : 'a list list =
   match lens with
@@ -27,7 +28,7 @@ let rec take_groups (ws : 'a list) (lens : int list) : 'a list list =
       g :: take_groups rest r
 let rec_hits = ref 0 and rec_miss = ref 0 and rec_same_as_dp = ref 0
 let ofit_of (h : (string, int list) Hashtbl.t) (p : penalties) (ws : word list) (lws : n list) : word list list option =
-  match Hashtbl.find_opt h (rec_key ws lws) with
+  match Hashtbl.find_opt h (rec_key p ws lws) with
   | Some lens ->
       incr rec_hits;
       let g = take_groups ws lens in
@@ -48,6 +49,21 @@ let c03_pre (fs : frag list) (lws : Obj.t list) : bool =
   List.length lws <= 2
   && List.for_all (fun f -> qle q0 (fq f.fw) && qle q0 (fq f.fws) && qle q0 (fq f.fpen)) fs
   && (let rec ok = function a :: (b :: _ as r) -> qle (fq a.fpen) (fq b.fw) && ok r | _ -> true in ok fs)
+
+let canon_empty (t : str) (ls : oline list) : oline list =
+  match t with
+  | [] -> List.map (fun l -> match l.l_cow with Borrowed _ -> { l with l_cow = BorrowedStatic } | _ -> l) ls
+  | _ -> ls
+let wrap_s (e : env) (o : options) (t : str) : string =
+  opt_or_panic (fun ls -> eolines (canon_empty t ls)) (wrap cw alnum e.lbc custom3 e.ofit o t)
+let fill_s (e : env) (o : options) (t : str) : string =
+  opt_or_panic es (fill cw alnum e.lbc custom3 e.ofit o t)
+let unfill_s (t : str) : string =
+  opt_or_panic
+    (fun u ->
+      Printf.sprintf "%s/%s/%s/%s/%s" (es u.u_text) (dec_of_n u.u_width) (es u.u_ii) (es u.u_si)
+        (match u.u_le with LE_CRLF -> "crlf" | LE_LF -> "lf"))
+    (unfill cw t)
 
 let model (e : env) (fields : string array) : string =
   let f i = fields.(i) in
@@ -74,7 +90,7 @@ let model (e : env) (fields : string array) : string =
       let p = dpen (f 3) in
       let rq = optimal_fit numQ id p (List.map (dfrag_with qconv) (dlist (f 1))) (List.map qconv (dlist (f 2))) in
       opt_or_panic egroups rq
-  | "wrap" -> opt_or_panic eolines (wrap cw alnum e.lbc cs e.ofit (dopts (f 1)) (ds (f 2)))
+  | "wrap" -> wrap_s e (dopts (f 1)) (ds (f 2))
   | "fill" -> opt_or_panic es (fill cw alnum e.lbc cs e.ofit (dopts (f 1)) (ds (f 2)))
   | "fill2" ->
       let o = dopts (f 1) in
@@ -90,29 +106,59 @@ let model (e : env) (fields : string array) : string =
       let canon ls = match t with [] -> List.map (fun l -> match l.l_cow with Borrowed _ -> { l with l_cow = BorrowedStatic } | _ -> l) ls | _ -> ls in
       opt_or_panic (fun l -> eolines (canon l)) (wrap_single_line cw alnum e.lbc cs e.ofit o first t) ^ "\t"
       ^ opt_or_panic (fun l -> eolines (canon l)) (slow_path cw alnum e.lbc cs e.ofit o first t)
-  | "fip" -> opt_or_panic es (fill_inplace cw (ds (f 1)) (n_of_dec (f 2)))
-  | "unfill" ->
-      opt_or_panic
-        (fun u ->
-          Printf.sprintf "%s/%s/%s/%s/%s" (es u.u_text) (dec_of_n u.u_width) (es u.u_ii) (es u.u_si)
-            (match u.u_le with LE_CRLF -> "crlf" | LE_LF -> "lf"))
-        (unfill cw (ds (f 1)))
+  | "fip" ->
+      let t = ds (f 1) and w = n_of_dec (f 2) in
+      let o = { o_width = w; o_le = LE_LF; o_ii = []; o_si = []; o_bw = false; o_alg = FirstFit; o_sep = SepAscii; o_spl = SplNone } in
+      opt_or_panic es (fill_inplace cw t w) ^ "\t" ^ wrap_s e o t
+  | "unfill" -> unfill_s (ds (f 1))
   | "refill" -> opt_or_panic es (refill cw alnum e.lbc cs e.ofit (dopts (f 1)) (ds (f 2)))
   | "indent" -> es (indent (ds (f 1)) (ds (f 2)))
   | "dedent" -> es (dedent (ds (f 1)))
   | "wc" ->
-      opt_or_panic estrs
-        (wrap_columns cw alnum e.lbc cs e.ofit (dopts (f 1)) (ds (f 2)) (n_of_dec (f 3)) (ds (f 4)) (ds (f 5)) (ds (f 6)))
+      let o = dopts (f 1) and cols = n_of_dec (f 3) in
+      let l = ds (f 4) and m = ds (f 5) and r = ds (f 6) in
+      let inner = N.sub (N.sub (N.sub o.o_width (dw cw l)) (dw cw r)) (N.mul (dw cw m) (N.sub cols (n_of_int 1))) in
+      let colw = (let q = fst (N.div_eucl inner cols) in if N.ltb q (n_of_int 1) then n_of_int 1 else q) in
+      opt_or_panic estrs (wrap_columns cw alnum e.lbc cs e.ofit o (ds (f 2)) cols l m r)
+      ^ "\t" ^ wrap_s e { o with o_width = colw } (ds (f 2))
+  | "wrap8" ->
+      let o = dopts (f 1) in
+      let o2 = { o with o_ii = ds (f 2); o_si = ds (f 3) } in
+      wrap_s e o (ds (f 4)) ^ "\t" ^ wrap_s e o2 (ds (f 4))
+  | "wrap9" ->
+      let o = dopts (f 1) and a = ds (f 2) and b = ds (f 3) and a2 = ds (f 4) in
+      let le = le_str o.o_le in
+      let ab = a @ le @ b and a2b = a2 @ le @ b in
+      let t_lf = a @ [lF] @ b in
+      let t_cr = List.concat_map (fun c -> if N.eqb c lF then [cR; lF] else [c]) t_lf in
+      String.concat "\t"
+        [ wrap_s e o a; wrap_s e o ab; wrap_s e o b; wrap_s e o a2b; fill_s e o ab;
+          fill_s e { o with o_le = LE_LF } t_lf; fill_s e { o with o_le = LE_CRLF } t_cr ]
+  | "wrap13" ->
+      let o = dopts (f 1) and t = ds (f 2) in
+      wrap_s e o t ^ "\t" ^ wrap_s e o (strip t)
+  | "unfill15" ->
+      let o = dopts (f 1) in
+      let para = join [sP] (List.map ds (dlist (f 2))) in
+      (match fill cw alnum e.lbc cs e.ofit o para with
+       | None -> "PANIC"
+       | Some fl ->
+           let filled = if f 3 = "1" then fl @ le_str o.o_le else fl in
+           es filled ^ "\t" ^ unfill_s filled)
+  | "refill16" ->
+      let o1 = dopts (f 1) and o2 = dopts (f 2) in
+      let para = join [sP] (List.map ds (dlist (f 3))) in
+      (match fill cw alnum e.lbc cs e.ofit o1 para with
+       | None -> "PANIC"
+       | Some fl ->
+           let filled = if f 4 = "1" then fl @ le_str o1.o_le else fl in
+           es filled ^ "\t" ^ opt_or_panic es (refill cw alnum e.lbc cs e.ofit o2 filled)
+           ^ "\t" ^ fill_s e { o2 with o_ii = o1.o_ii; o_si = o1.o_si } para)
+  | "dedent18" ->
+      let t = ds (f 1) and p = ds (f 2) in
+      let d = dedent t in
+      es d ^ "\t" ^ es (dedent d) ^ "\t" ^ es (dedent (indent t p))
   | op -> "UNKNOWN-OP " ^ op
-
-(* wrap: an empty caller buffer has no address of its own *)
-let model (e : env) (fields : string array) : string =
-  match fields.(0) with
-  | "wrap" when fields.(2) = "_" ->
-      opt_or_panic
-        (fun ls -> eolines (List.map (fun l -> match l.l_cow with Borrowed _ -> { l with l_cow = BorrowedStatic } | _ -> l) ls))
-        (wrap cw alnum e.lbc custom3 e.ofit (dopts fields.(1)) [])
-  | _ -> model e fields
 
 (* "of": smawk decides ties, and outside C03's precondition it may even miss the
    optimum; equality of groups is then replaced by equality of exact cost (inside the
@@ -160,7 +206,7 @@ let () =
          in
          Printf.printf "%d\tL1\t%s\t%s\n" !lineno (fst verdict) (snd verdict);
          if !oracle_bad then Printf.printf "%d\tASSUME\tlbc\tFAIL\tlinebreaks() violated an assumed property\n" !lineno;
-         (try Checks.run !lineno e.lbc e.ofit args impl
+         (try Checks.run !lineno e.lbc e.ofit args impl (if irec + 1 < n then fields.(irec + 1) else "-")
           with
           | Oracle_miss k -> Printf.printf "%d\tL2\t-\tskip\toracle miss %s\n" !lineno k
           | Failure msg -> Printf.printf "%d\tL2\t-\tERROR\t%s\n" !lineno msg)
